@@ -69,6 +69,8 @@ def _run(tier, seed, replay=None):
         only = "%s/%s/%s#%s" % (p.get("workload"), p.get("role"), p.get("name"), p.get("k", 1))
         if p.get("second"):
             only += "+" + p["second"]
+        if p.get("both"):
+            only += "+runner-too"
         args += ["-only", only]
     elif tier == "quick":
         args += ["-max", "16"]
